@@ -4,7 +4,7 @@
 P="$(realpath "$1")"; ID="$2"; shift 2
 if ! git -C /repo diff --quiet; then echo "refusing: /repo has uncommitted changes"; exit 3; fi
 git -C /repo apply "$P" || { echo "patch does not apply: $P"; exit 3; }
-OUT=$(/verif/check "$ID" "$@" 2>&1); RC=$?
+OUT=$(timeout 900 /verif/check "$ID" "$@" 2>&1); RC=$?
 git -C /repo checkout -- . 
 case $RC in 0) R=SURVIVED;; 1) R=KILLED;; *) R=ERROR;; esac
 echo "$R $ID $(basename $P): $(echo "$OUT" | grep -v conda | grep -E 'signature|HARNESS|Error' | head -3 | tr '\n' ' ' | cut -c1-300)"
